@@ -113,6 +113,9 @@ type verifyCtx struct {
 	callOrd   map[ssa.Instruction]int
 	region    *regionInfo
 	children  map[*ssa.BasicBlock]*regionInfo
+	// whole-function pass of a function that also has regions: entry blocks of the parentless regions, whose
+	// assumptions become obligations where the whole-function execution reaches them
+	wholeEntries map[*ssa.BasicBlock]*regionInfo
 }
 
 type loopInfo struct {
